@@ -266,6 +266,13 @@ def run(chk: common.Check):
                         found.append(("disulfide-not-flagged", f"sulfurs {i},{j} at disulfide distance: bridge flags {bridge[i]},{bridge[j]}", {"atoms": sp}))
         chk.count(1, key=("search", n))
 
+    flag_cases = []      # (what, key, is_cys, model_pka_set, bridge, list or None, real titratable, real use_in_calculations)
+
+    def collect_flags(what, conf, lst):
+        for g in conf.groups:
+            a = g.atom
+            flag_cases.append((f"{what}: {g.label}", (a.chain_id, a.res_num, a.icode), g.residue_type == "CYS", bool(g.model_pka_set), bool(a.cysteine_bridge), lst,
+                               bool(g.titratable), bool(g.use_in_calculations())))
     # real structures in several poses: bonds (as index pairs) invariant; bridged cysteines are not titrated
     names = ["3SGB-subset.pdb"] + (["1HPX.pdb", "1FTJ-Chain-A.pdb"] if chk.thorough else [])
     rots = structures.rotations24()
@@ -282,6 +289,7 @@ def run(chk: common.Check):
             bonds = sorted((key[id(a)], key[id(b)]) for a in heavy for b in a.bonded_atoms if id(b) in key)
             if ref is None:
                 ref = bonds
+                collect_flags(name, conf, None)
                 # O(n^2) on the real atoms
                 miss = 0
                 for a, b in itertools.combinations(heavy, 2):
@@ -314,18 +322,45 @@ def run(chk: common.Check):
         mol2, _ = structures.run(text, ["-i", opt])
         conf2 = mol2.conformations[mol2.conformation_names[0]]
         chk.count(1, key=("titrate_only", name))
+        import propka.lib as _L
+        collect_flags(f"{name} -i {opt}", conf2, _L.parse_res_list(opt))
         for g in conf2.groups:
             if g.residue_type == "CYS" and g.atom.cysteine_bridge and (g.titratable or g.pka_value != 99.99):
                 found.append(("bridged-cys-titrated:titrate_only", f"{name} --titrate_only {opt}: {g.label} is in a disulfide bridge but titratable={g.titratable}, pKa={g.pka_value}",
                               {"pdb": name, "options": ["-i", opt]}))
                 break
 
+    # ---- correspondence: the flag life-cycle model (Titrate.v: flag_init / OpSetup / OpRestrict) vs the flags of real groups
+    fdis = []
+    if flag_cases:
+        from props.c14 import of_codes
+        ck = lambda k: f"({of_codes(k[0])}, ({k[1]})%Z, {of_codes(k[2])})"
+        b = lambda v: "true" if v else "false"
+        lists = {}
+        exprs = []
+        for what, key, is_cys, mps, bridge, lst, t, u in flag_cases:
+            lo = "None" if lst is None else "(Some [" + "; ".join(ck(k) for k in lst) + "])"
+            exprs.append(f"(let g := snd (flag_run (flag_init {ck(key)} {b(is_cys)} {b(bridge)} tt) [OpSetup {b(mps)}; OpRestrict {lo}]) in "
+                         f"[Z.b2z (g_titratable g); Z.b2z (use_in_calculations g)])")
+        pre = "From Coq Require Import String List ZArith Bool.\nFrom V Require Import PyString Titrate.\nImport ListNotations.\n"
+        res = common.coq_eval("c11f", pre, exprs, shard=300)
+        for (what, key, is_cys, mps, bridge, lst, t, u), r in zip(flag_cases, res):
+            if [bool(r[0]), bool(r[1])] != [t, u]:
+                fdis.append({"group": what, "model_pka_set": mps, "bridge": bridge, "listed": None if lst is None else key in lst, "impl": [t, u], "model": [bool(r[0]), bool(r[1])]})
+        chk.corr_stats["titration flags ~ flag life-cycle model"] = {"groups": len(flag_cases), "bridged": sum(1 for c in flag_cases if c[4]), "disagreements": len(fdis)}
+        chk.cov["traces_validated_against_impl"] += len(flag_cases)
+        for d in fdis[:2]:
+            if d["bridge"] and d["impl"][0]:
+                found.append(("bridged-cys-titrated", f"{d['group']} sits on a bridged atom but is titratable (model: never)", d))
+
     uniq = {}
     for sig, what, rep in found:
         uniq.setdefault(sig, (sig, what, rep))
     found = list(uniq.values())
     gv = getattr(chk, "_genval_dis", [])
-    if dis or gv:
+    if fdis and not (dis or gv):
+        chk.broken("correspondence", "flag life-cycle model (Titrate.v) ~ titratable / use_in_calculations of real groups", {"flags": fdis[:4]}, search_fn=lambda: found)
+    elif dis or gv:
         chk.broken("correspondence", "Bonds model ~ BondMaker.find_bonds_for_atoms_using_boxes", {"trace": dis[:3], "translator": gv}, search_fn=lambda: found)
     elif not proved:
         chk.broken("proof", "props/C11.v", chk.broken_obligation, search_fn=lambda: found)
@@ -338,9 +373,13 @@ def run(chk: common.Check):
               "Trace correspondence: box size, cell contents, sequence of examined pairs, ordered bonded lists, bridge flags on generated sets "
               "(26 directions x boundary distances x element mixes, clusters with negative / multiple-of-box coordinates, sliding disulfide); "
               "float cell index validated monotone + adjacent on the coordinate grid (exhaustive in the thorough tier); "
-              "search: independent O(n^2) rule on the same sets and on real structures in rigid poses. distinct = (size, element multiset)"),
+              "search: independent O(n^2) rule on the same sets and on real structures in rigid poses; flag life-cycle model vs the titration flags "
+              "of all groups of real runs, bridged cysteines named in --titrate_only. distinct = (size, element multiset)"),
         assumptions=["theorem over R with cell = floor(x/box); for the binary64 cell index the two needed facts (monotone, adjacent within reach) are "
                      "validated on the 0.001 A coordinate grid, not proved",
                      "element symbols among the periodic-table symbols known to propka (symmetry of the special-distance key by finite computation)",
-                     "bridged cysteine => not titrated (Group.setup / calculate_total_pka) is decided by the end-to-end search only"],
+                     "bridged cysteine => not titrated: theorem over the flag life-cycle model (Titrate.v) whose operations are shown to be ALL the "
+                     "assignments to titratable / cysteine_bridge / exclude_cys_from_results of the current source (re-extracted inventory) and whose "
+                     "results are compared with the flags of every group of real runs (with and without --titrate_only); that bond perception precedes "
+                     "group creation (bridge flag set before Group.setup) is covered by that comparison, not proved"],
         trusted=["tools/vlib/tables.py", "py2coq", "hand model Bonds.v validated at trace level", "stdlib real axioms, Flocq Zfloor"])
